@@ -248,7 +248,7 @@ var vpC20Indirect = map[string]string{
 	"ListenNew": "constructor", "MoveNew": "constructor", "OfferNew": "constructor", "ReadNew": "constructor", "RejectNew": "constructor",
 	"RemoveNew": "constructor", "TentativeAcceptNew": "constructor", "TentativeRejectNew": "constructor", "UndoNew": "constructor",
 	"UpdateNew": "constructor", "ViewNew": "constructor",
-	"ErrorInvalidType": "error constructor",
+	"ErrorInvalidType":  "error constructor",
 	"(Activity).Equals": "via ItemsEqual", "(Actor).Equals": "via ItemsEqual", "(Collection).Equals": "via ItemsEqual",
 	"(CollectionPage).Equals": "via ItemsEqual", "(IntransitiveActivity).Equals": "via ItemsEqual", "(ItemCollection).Equals": "via ItemsEqual",
 	"(Link).Equals": "via ItemsEqual", "(OrderedCollection).Equals": "via ItemsEqual", "(OrderedCollectionPage).Equals": "via ItemsEqual",
